@@ -144,7 +144,7 @@ package memory
 
 // "either applies all ... or changes nothing": a refused request leaves every store's tuples and changelog as they were
 //@ func (*MemoryBackend).Write(s, ctx, store, deletes, writes, opts) (err)
-//@   property C12 C16 C14
+//@   property C12 C16 C14 C15
 //@   option nosafety
 //@   requires s != nil
 //@   requires @noNilRecords forall j int :: 0 <= j && j < len(s.tuples[store]) ==> s.tuples[store][j] != nil
@@ -158,7 +158,28 @@ package memory
 // the whole request — commit timestamp, validation against the current tuples, and the application — runs inside ONE
 // critical section of the tuples mutex held for writing: validation and application see the same state (C12), and
 // commit timestamps (from which the changelog ULIDs that ReadChanges pages by are derived) are taken in commit order (C14)
-//@   option monitor_props criticalSection=C12,C14
+// the changelog side of the apply loops (C15, "each successful write or delete produces exactly one change entry"):
+// every stored tuple is either kept or — exactly when the request deletes it — logged as ONE delete change; every
+// record the request adds is logged as ONE write change (an ignored duplicate write adds neither); each change carries
+// the request's commit timestamp, the right operation and the tuple's object, relation and user
+//@   loop 0 invariant $idx < old(len(s.tuples[store])) && kept + chgD == $idx + 1 && added == 0 && chgW == 0 && len(records) == kept
+//@   loop 1 invariant chgD == c0 && added == 0 && chgW == 0
+//@   loop 2 invariant added == chgW && len(records) == kept + added && kept + chgD == old(len(s.tuples[store]))
+//@   ensures @oneChangePerAppliedChange err == nil ==> added == chgW && kept + chgD == old(len(s.tuples[store]))
+//@   option monitor_props criticalSection=C12,C14 changelog=C15,C12
+//@   monitor changelog
+//@     ghost kept int = 0
+//@     ghost added int = 0
+//@     ghost chgD int = 0
+//@     ghost chgW int = 0
+//@     ghost k0 int = 0
+//@     ghost c0 int = 0
+//@     ghost writing = false
+//@     after call (*storage.TupleRecord).AsTuple : k0 = kept ; c0 = chgD
+//@     after call tuple.SplitObject : writing = true
+//@     after call builtin.append:storage.TupleRecord : kept = kept + (writing ? 0 : 1) ; added = added + (writing ? 1 : 0)
+//@     before call builtin.append:memory.tupleChangeRec args sl, add : assert len(add) == 1 && add[0] != nil && add[0].Change != nil && add[0].Change.Timestamp == now && add[0].Change.Operation == (writing ? openfgav1.TupleOperation_TUPLE_OPERATION_WRITE : openfgav1.TupleOperation_TUPLE_OPERATION_DELETE) && add[0].Change.TupleKey != nil && add[0].Change.TupleKey.Object == tk.GetObject() && add[0].Change.TupleKey.Relation == tk.GetRelation() && add[0].Change.TupleKey.User == tk.GetUser()
+//@     after call builtin.append:memory.tupleChangeRec : chgD = chgD + (writing ? 0 : 1) ; chgW = chgW + (writing ? 1 : 0)
 //@   monitor criticalSection
 //@     ghost locked = false
 //@     after call (*sync.RWMutex).Lock args m : locked = true
@@ -233,3 +254,21 @@ package memory
 //@   loop 1 invariant rswuBasic(t, filter)
 //@   monitor sorted
 //@     before call sort.Slice args x, less : assert typeIs(x, "[]*storage.TupleRecord") && forall j int :: 0 <= j && j < len(as(x, "[]*storage.TupleRecord")) ==> rswuBasic(as(x, "[]*storage.TupleRecord")[j], filter)
+
+// ------------------------------------------------------------------ C19: no-panic sweep (thin, safety-only contracts)
+// every index and slice expression of these functions is in range for ALL inputs, with no precondition (generated by
+// bin/sweepgen, kept because every obligation discharges; callees without contract are treated as arbitrary)
+//@ func (*MemoryBackend).ReadChanges(recv, a0, a1, a2, a3) (r0, r1, r2)
+//@   property C19
+//@   option nosafety
+//@   option safety slice,index
+
+//@ func (*staticIterator).Head(recv, a0) (r0, r1)
+//@   property C19
+//@   option nosafety
+//@   option safety slice,index
+
+//@ func (*staticIterator).Next(recv, a0) (r0, r1)
+//@   property C19
+//@   option nosafety
+//@   option safety slice,index
